@@ -19,6 +19,12 @@ func (core *JApiCore) processInclude(keyword *scanner.Lexeme) *jerr.JApiError {
 	// This directive shouldn't be among core.directives, because we simply
 	// "paste" included file content inside current file.
 
+	// The directive collected so far is complete: place it now, so that an error
+	// about it is not attributed to the file that is about to be included.
+	if je := core.processCurrentDirective(); je != nil {
+		return je
+	}
+
 	if _, ok := core.bannedDirectives[directive.Include]; ok {
 		return japiErrorForLexeme(keyword, fmt.Sprintf("%s (%s)", jerr.DirectiveNotAllowed, directive.Include.String()))
 	}
